@@ -428,14 +428,6 @@ theorem C02_vmf_cdf_inverse {κ u pi : ℝ} (hκ : 0 < κ) (hpi : 0 < pi) (hu1 :
     field_simp
     ring
 
-/-- `_rotmat` (for `cos β, sin β, cos γ, sin γ` with unit norms) applied to a vector. -/
-def rot (cb sb cg sg : ℚ) (v : ℚ × ℚ × ℚ) : ℚ × ℚ × ℚ :=
-  (cb * cg * v.1 - sg * v.2.1 + sb * cg * v.2.2,
-   cb * sg * v.1 + cg * v.2.1 + sb * sg * v.2.2,
-   -sb * v.1 + cb * v.2.2)
-
-def dot3 (v w : ℚ × ℚ × ℚ) : ℚ := v.1 * w.1 + v.2.1 * w.2.1 + v.2.2 * w.2.2
-
 /-- `_rotmat` is orthogonal: it preserves dot products (hence angles; that it preserves solid
     angle is the assumption stated in the header). -/
 theorem C02_rotmat_orthogonal {cb sb cg sg : ℚ} (hb : cb ^ 2 + sb ^ 2 = 1) (hg : cg ^ 2 + sg ^ 2 = 1)
